@@ -119,6 +119,7 @@ func (b *sendDataWriter) deliver(data []byte) bool {
 		buffer.Write(data)
 		buffer.Write([]byte(b.transfer.transferConfig.Newline))
 	}
+	vhook("pipe.enc.deliver", len(data))
 	select {
 	case b.sendDataChan <- trzszData{data, buffer.Bytes(), 0}:
 		return true
@@ -153,6 +154,7 @@ func (b *sendDataWriter) Write(p []byte) (int, error) {
 
 		if bufInitPhase {
 			// wait until the ack of this chunk has been handled, or the pipeline is cancelled
+			vhook("pipe.enc.wait")
 			select {
 			case <-b.transfer.bufInitChan:
 			case <-b.ctx.Done():
@@ -488,6 +490,7 @@ func (t *trzszTransfer) pipelineCalculateMD5(ctx *pipelineContext, md5SourceChan
 		defer close(md5DigestChan)
 		hasher := md5.New()
 		for buf := range md5SourceChan {
+			vhook("pipe.md.got", len(buf))
 			if _, err := hasher.Write(buf); err != nil {
 				ctx.cancel(simpleTrzszError("MD5 write error: %v", err))
 				return
@@ -499,6 +502,7 @@ func (t *trzszTransfer) pipelineCalculateMD5(ctx *pipelineContext, md5SourceChan
 		if ctx.Err() != nil {
 			return
 		}
+		vhook("pipe.md.sum")
 		md5DigestChan <- hasher.Sum(nil)
 	}()
 	return md5DigestChan
@@ -522,6 +526,7 @@ func (t *trzszTransfer) pipelineReadData(ctx *pipelineContext, file fileReader) 
 			vhook("pipeline.read", int(step))
 			n, err := file.Read(buffer)
 			if n > 0 {
+				vhook("pipe.rd.put", n)
 				select {
 				case fileDataChan <- buffer[:n]:
 				case <-ctx.Done():
@@ -580,6 +585,7 @@ func (t *trzszTransfer) pipelineEncodeData(ctx *pipelineContext, fileDataChan <-
 		}()
 
 		for data := range fileDataChan {
+			vhook("pipe.enc.got", len(data))
 			if err := writeAll(writer, data); err != nil {
 				ctx.cancel(simpleTrzszError("Write to encode writer error: %v", err))
 				return
@@ -624,6 +630,7 @@ func (t *trzszTransfer) pipelineRecvCurrentAck() (int64, int64, bool, error) {
 
 func (t *trzszTransfer) pipelineRecvFinalAck(ctx *pipelineContext, size int64, progressChan chan<- int64) {
 	for ctx.Err() == nil {
+		vhook("pipe.ack.final")
 		resp, _, _, err := t.recvCheckV2("SUCC")
 		if err != nil {
 			ctx.cancel(err)
@@ -650,6 +657,7 @@ func (t *trzszTransfer) pipelineRecvFinalAck(ctx *pipelineContext, size int64, p
 
 		if step == size {
 			if ctx.Err() == nil {
+				vhook("pipe.ack.succ")
 				ctx.succ <- struct{}{}
 			}
 			break
@@ -664,6 +672,7 @@ func (t *trzszTransfer) pipelineSendData(ctx *pipelineContext, sendDataChan <-ch
 		if err != nil {
 			return err
 		}
+		vhook("pipe.snd.ack", length)
 		select {
 		case ackChan <- trzszAck{*beginTime, int64(length)}:
 			return nil
@@ -674,6 +683,7 @@ func (t *trzszTransfer) pipelineSendData(ctx *pipelineContext, sendDataChan <-ch
 	go func() {
 		defer close(ackChan)
 		for data := range sendDataChan {
+			vhook("pipe.snd.got", len(data.data))
 			if ctx.Err() != nil {
 				return
 			}
@@ -725,6 +735,7 @@ func (t *trzszTransfer) pipelineRecvAck(ctx *pipelineContext, size int64, ackCha
 		}
 		ignoreChunkTimeCount := 0
 		for ack := range ackChan {
+			vhook("pipe.ack.got")
 			length, step, pause, err := t.pipelineRecvCurrentAck()
 			if err != nil {
 				ctx.cancel(err)
@@ -830,6 +841,7 @@ func (t *trzszTransfer) sendFileDataV2(file fileReader, progress progressCallbac
 		defer wg.Wait()
 	}
 
+	vhook("pipe.main.select")
 	select {
 	case <-ctx.succ:
 		return <-md5DigestChan, nil
@@ -876,6 +888,7 @@ func (t *trzszTransfer) pipelineSendAck(ctx *pipelineContext, size int64, ackCha
 	go func() {
 		// send an ack for each step
 		for length := range ackChan {
+			vhook("pipe.sack.got", length)
 			if err := t.checkStopAndPause("SUCC"); err != nil {
 				ctx.cancel(err)
 				return
@@ -892,6 +905,7 @@ func (t *trzszTransfer) pipelineSendAck(ctx *pipelineContext, size int64, ackCha
 
 		// send ack until all data is saved to disk
 		for ctx.Err() == nil {
+			vhook("pipe.sack.final")
 			if err := t.checkStopAndPause("SUCC"); err != nil {
 				ctx.cancel(err)
 				return
@@ -909,6 +923,7 @@ func (t *trzszTransfer) pipelineSendAck(ctx *pipelineContext, size int64, ackCha
 
 			if step == size {
 				if ctx.Err() == nil {
+					vhook("pipe.sack.succ")
 					ctx.succ <- struct{}{}
 				}
 				break
@@ -931,6 +946,7 @@ func (t *trzszTransfer) pipelineRecvData(ctx *pipelineContext) (<-chan int, <-ch
 		defer close(recvDataChan)
 		t.savedSteps.Store(0)
 		for ctx.Err() == nil {
+			vhook("pipe.rcv.read")
 			var err error
 			var data []byte
 			var beginTime *time.Time
@@ -944,6 +960,7 @@ func (t *trzszTransfer) pipelineRecvData(ctx *pipelineContext) (<-chan int, <-ch
 				return
 			}
 
+			vhook("pipe.rcv.ack", len(data))
 			select {
 			case ackChan <- len(data):
 			case <-ctx.Done():
@@ -958,6 +975,7 @@ func (t *trzszTransfer) pipelineRecvData(ctx *pipelineContext) (<-chan int, <-ch
 
 			buf := make([]byte, len(data))
 			copy(buf, data)
+			vhook("pipe.rcv.put", len(buf))
 			select {
 			case recvDataChan <- buf:
 			case <-ctx.Done():
@@ -995,9 +1013,11 @@ func (t *trzszTransfer) pipelineDecodeData(ctx *pipelineContext, recvDataChan <-
 		}
 		defer reader.Close()
 		for ctx.Err() == nil {
+			vhook("pipe.dec.read")
 			buffer := make([]byte, 32*1024)
 			n, err := reader.Read(buffer)
 			if n > 0 {
+				vhook("pipe.dec.put", n)
 				select {
 				case fileDataChan <- buffer[:n]:
 				case <-ctx.Done():
@@ -1034,6 +1054,7 @@ func (t *trzszTransfer) pipelineSaveData(ctx *pipelineContext, file fileWriter, 
 		}
 		step := int64(0)
 		for data := range fileDataChan {
+			vhook("pipe.sav.got", len(data))
 			if err := writeAll(file, data); err != nil {
 				ctx.cancel(simpleTrzszError("Write file error: %v", err))
 				return
@@ -1058,6 +1079,7 @@ func (t *trzszTransfer) pipelineSaveData(ctx *pipelineContext, file fileWriter, 
 			ctx.cancel(simpleTrzszError("SaveFile expected step %d but was %d", size, step))
 			return
 		}
+		vhook("pipe.sav.done")
 		ackImmediatelyChan <- struct{}{}
 	}()
 	return progressChan
@@ -1092,6 +1114,7 @@ func (t *trzszTransfer) recvFileDataV2(file fileWriter, size int64, progress pro
 		defer wg.Wait()
 	}
 
+	vhook("pipe.rmain.select")
 	select {
 	case <-ctx.succ:
 		return <-md5DigestChan, nil
